@@ -25,7 +25,8 @@ DEV18 = {"Release": ("C18_AtMostOneLive", False), "ReleaseSafe": ("C18_ReleaseSa
          "ReacqBlind": ("C18_AtMostOneLive", True)}
 # Release / ReleaseRace interleave a Release with the same broker's acquire: the repaired tree serialises the two, so the
 # acquire step blocks ("not replayed", still observed).  ReleaseSafe and PutIfOwnerOther contain no such step.
-DEV20 = {"Rev": "C20_Converged", "RevReconnect": "C20_Converged", "DropSameRev": "C20_Converged", "NoReload": "C20_Converged"}
+DEV20 = {"Rev": "C20_Converged", "RevReconnect": "C20_Converged", "DropSameRev": "C20_Converged", "NoReload": "C20_Converged",
+         "LoadMerge": "C20_Converged", "PutsFirst": "C20_Converged"}
 GATES18 = ["lease.afterSession", "lease.afterTxn", "lease.afterReacquire", "lease.release", "lease.monitor"]
 GATES20 = ["router.beforeWatch"]
 
@@ -151,13 +152,19 @@ def common_tail(ctx, prop, scheds, labels, rows, runs, router, must_force, mcs, 
 
 
 def dev_schedules(ctx, d, devs):
-    out = []
-    for dev, inv in sorted(devs.items()):
-        h, r = T.counterexample_hist(ctx, d, "MC_Lease.tla", "Dev_Lease_%s.cfg" % dev, timeout=600, workers=1)  # one worker: the counterexample found is deterministic
+    """TLC counterexample of every named deviation (one TLC worker each: deterministic counterexample; the runs are independent,
+    so they are started side by side)."""
+    from concurrent.futures import ThreadPoolExecutor
+
+    def one(item):
+        dev, inv = item
+        h, r = T.counterexample_hist(ctx, d, "MC_Lease.tla", "Dev_Lease_%s.cfg" % dev, timeout=900, workers=1)
         if h is None or inv not in r.violated:
             raise Broken("deviation %s no longer violates %s in the model (vacuous deviation)" % (dev, inv))
-        out.append((dev, h))
-    return out
+        return dev, h
+
+    with ThreadPoolExecutor(max_workers=4) as ex:
+        return list(ex.map(one, sorted(devs.items())))
 
 
 def check_gates(hits, need):
